@@ -15,7 +15,7 @@ RULE = ('random crystals: Bravais type drawn from all 3-D (11) and 2-D (5) syste
 ASSUMPTIONS = ['positions compared modulo the lattice with tolerance 1e-6 (the class threshold is 1e-8)',
                'atoms closer than 0.25 (lattice units) are not generated']
 REQUIRED_OBS = {'crystals_checked': 20, 'eval:C18:closure': 20, 'eval:C18:atom-map': 100, 'nosym_crystals': 2,
-                'spin_crystals': 2, 'dim2_crystals': 3}
+                'spin_crystals': 2, 'dim2_crystals': 3, 'noreduce_supercells': 3}
 PER_CASE = 6
 
 
@@ -50,6 +50,15 @@ def run_case(case):
                 kw['spins'] = [[d * float(rng.choice([-1, 1])) for _ in lst] for lst in spec['basis']]
                 flags.append('vectorspin')
         latt = np.array(spec['latt'])
+        if 0.6 <= mode < 0.75:
+            # the same crystal described in a non-reduced supercell (noreduce=True): still a crystal, still needs a group
+            from vmon.ref import equiv
+            P0 = crystal.Crystal(latt, [[np.array(u) for u in lst] for lst in spec['basis']])
+            S = np.diag([int(x) for x in rng.permutation([int(rng.integers(2, 4))] + [1] * (spec['dim'] - 1))])
+            latt, sb = equiv.supercell_description(P0, S, rng)
+            spec = dict(spec, basis=sb)
+            kw['noreduce'] = True
+            flags.append('noreduce-supercell')
         if 0.45 <= mode < 0.6:
             eps = rng.normal(size=(spec['dim'],) * 2) * 0.02
             eps = 0.5 * (eps + eps.T)
@@ -65,6 +74,7 @@ def run_case(case):
                 mon.count('nosym_crystals', 'NOSYM' in flags)
                 mon.count('spin_crystals', kw.get('spins') is not None)
                 mon.count('dim2_crystals', spec['dim'] == 2)
+                mon.count('noreduce_supercells', 'noreduce-supercell' in flags)
                 if 'NOSYM' in flags:
                     mon.check(len(crys.G) == 1, 'C18:nosym-single-op', '|G|=%d' % len(crys.G))
                 if crys.N > 1 or len(crys.G) > 1:
